@@ -133,11 +133,18 @@ def gen(seed, thorough=False):
                 text = (unit * (vol // len(unit) + 1))[:vol]
                 if unit in ('7 0 0\n', '1 2 3 4\n'):
                     text = unit
-                plan.append(C.fault_entry(d, rng.choice(C.test_phases(d)),
-                                          {'a': 'write',
-                                           'stream': rng.choice(['realstderr', 'realstderr',
-                                                                 'stdout', 'stderr']),
-                                           'text': text}))
+                if rng.random() < 0.2:
+                    junk = rng.choice([b'caf\xe9 na\xefve\n', b'\xff\xfe\x00binary\x80\n',
+                                       b'\xc3(\n', b'\xe2\x82', b'\x80' * vol])
+                    plan.append(C.fault_entry(d, rng.choice(C.test_phases(d)),
+                                              {'a': 'write', 'stream': 'realstderr.bytes',
+                                               'text': '', 'hex': junk.hex()}))
+                else:
+                    plan.append(C.fault_entry(d, rng.choice(C.test_phases(d)),
+                                              {'a': 'write',
+                                               'stream': rng.choice(['realstderr', 'realstderr',
+                                                                     'stdout', 'stderr']),
+                                               'text': text}))
         elif k < 0.92:
             plan.append({'site': 'channel', 'ident': lf, 'a': 'eintr',
                          'nth': rng.randint(1, 12)})
